@@ -1,4 +1,177 @@
 import RP.Driver.Common
--- line-protocol driver for property C08 (stub)
-def handle (_line : String) : String := "unimplemented"
-def main : IO Unit := RP.Driver.run handle
+import RP.Model.Cfr
+import RP.Spec.Cfr
+import RP.Gen.C08
+import Std.Data.HashMap
+/-! line-protocol driver for C08 (stateful: a `tree` line sets the tree the following `regret`
+lines refer to).
+
+    tree <n> <m> <n nodes: parent|-,edge,kind(w|o|c|t),bucket,payoff-f32-bits> <m sigmas: bucket,edge,f32-bits>
+        → tree <n> <childless nodes> wf external-shape
+    regret <roots csv> <edge:scale-f64-bits csv>
+        → scale-ok textbook-eq <edge> ~<regret/scale> …
+
+All arithmetic is exact (`Rat`), values are built from the dumped IEEE bit patterns; the
+functions evaluated are the model definitions `RP.Cfr.regretVector` (theorems `RP.C08.*`) and
+the specification `RP.Cfr.Spec.regret`. -/
+open RP.Driver RP.Cfr
+
+namespace RP.Driver.C08
+
+def pow2 (e : Int) : Rat := if e ≥ 0 then ((2 ^ e.toNat : Nat) : Rat) else mkRat 1 (2 ^ (-e).toNat)
+
+/-- exact value of an IEEE-754 binary32 bit pattern (none for inf/NaN) -/
+def f32ToRat (b : Nat) : Option Rat :=
+  if b ≥ 2^32 then none else
+  let neg : Bool := b >>> 31 == 1
+  let e : Nat := (b >>> 23) &&& 0xFF
+  let m : Nat := b &&& 0x7FFFFF
+  if e == 255 then none else
+  let v : Rat := if e == 0 then (m : Rat) * pow2 (-149) else ((m + 2^23 : Nat) : Rat) * pow2 ((e : Int) - 150)
+  some (if neg then -v else v)
+
+/-- exact value of an IEEE-754 binary64 bit pattern (none for inf/NaN) -/
+def f64ToRat (b : Nat) : Option Rat :=
+  if b ≥ 2^64 then none else
+  let neg : Bool := b >>> 63 == 1
+  let e : Nat := (b >>> 52) &&& 0x7FF
+  let m : Nat := b &&& (2^52 - 1)
+  if e == 2047 then none else
+  let v : Rat := if e == 0 then (m : Rat) * pow2 (-1074) else ((m + 2^52 : Nat) : Rat) * pow2 ((e : Int) - 1075)
+  some (if neg then -v else v)
+
+def ratAbs (x : Rat) : Rat := if x < 0 then -x else x
+
+/-- `~<x·10^12 rounded down>e-12` -/
+def showRat (x : Rat) : String :=
+  let q : Int := (x.num * (10^12 : Int)) / (x.den : Int)
+  s!"~{q}e-12"
+
+def parsePlayer : String → Option Player
+  | "w" => some .walker | "o" => some .opponent | "c" => some .chance | "t" => some .terminal
+  | _ => none
+
+def parseNode (s : String) : Option (Node Rat) :=
+  match s.splitOn "," with
+  | [p, e, k, b, u] => do
+    let parent ← if p == "-" then some none else (p.toNat?).map some
+    let incoming ← e.toNat?
+    let player ← parsePlayer k
+    let bucket ← b.toNat?
+    let payoff ← (u.toNat?).bind f32ToRat
+    some { parent, incoming, player, bucket, payoff }
+  | _ => none
+
+def parseSigma (s : String) : Option ((Nat × Nat) × Rat) :=
+  match s.splitOn "," with
+  | [b, e, w] => do
+    let b ← b.toNat?; let e ← e.toNat?; let w ← (w.toNat?).bind f32ToRat
+    some ((b, e), w)
+  | _ => none
+
+structure State where
+  tree : Tree Rat
+  sigma : Std.HashMap (Nat × Nat) Rat
+
+def State.σ (st : State) (b e : Nat) : Rat := (st.sigma.get? (b, e)).getD 0
+
+/-- every (bucket, edge) the estimator can ask `Profile::weight` for is in the dump -/
+def sigmaComplete (t : Tree Rat) (sg : Std.HashMap (Nat × Nat) Rat) : Bool :=
+  (List.range t.size).all fun i =>
+    t.player i == .chance || (t.kids i).all fun c => sg.contains (t.bucket i, t.incoming c)
+
+def handleTree (ws : List String) : Option State × String :=
+  match ws with
+  | n :: m :: rest =>
+    match n.toNat?, m.toNat? with
+    | some n, some m =>
+      if rest.length != n + m then (none, "bad-op") else
+      match (rest.take n).mapM parseNode, (rest.drop n).mapM parseSigma with
+      | some nodes, some sigs =>
+        let t := Tree.ofNodes nodes.toArray
+        let sg : Std.HashMap (Nat × Nat) Rat := Std.HashMap.ofList sigs
+        let leaves := ((List.range t.size).filter fun i => t.kids i == []).length
+        if !t.wfb then (none, s!"tree {n} {leaves} not-wf")
+        else if !sigmaComplete t sg then (none, s!"tree {n} {leaves} missing-sigma")
+        else (some { tree := t, sigma := sg },
+          s!"tree {n} {leaves} wf {if t.externalShapeB then "external-shape" else "not-external-shape"}")
+      | _, _ => (none, "bad-op")
+    | _, _ => (none, "bad-op")
+  | _ => (none, "bad-op")
+
+def insertSorted (x : Nat) : List Nat → List Nat
+  | [] => [x]
+  | y :: ys => if x ≤ y then x :: y :: ys else y :: insertSorted x ys
+def sortNat (l : List Nat) : List Nat := l.foldr insertSorted []
+
+def lo : Rat := mkRat RP.Gen.C08.REGRET_MIN_num RP.Gen.C08.REGRET_MIN_den
+def hi : Rat := mkRat RP.Gen.C08.REGRET_MAX_num RP.Gen.C08.REGRET_MAX_den
+
+structure Row where
+  edge : Nat
+  model : Rat
+  textbook : Rat
+  scale : Rat
+  scaleOk : Bool
+
+def handleRegret (st : State) (ws : List String) : String :=
+  match ws with
+  | [rs, es] =>
+    let roots? := (rs.splitOn ",").mapM String.toNat?
+    let edges? := (es.splitOn ",").mapM fun s =>
+      match s.splitOn ":" with
+      | [e, k] => do let e ← e.toNat?; let k ← (k.toNat?).bind f64ToRat; some (e, k)
+      | _ => none
+    match roots?, edges? with
+    | some roots, some edges =>
+      let t := st.tree
+      match roots with
+      | [] => "bad-op"
+      | h0 :: _ =>
+        if roots.any (fun r => t.player r != .walker) then "panic"   -- assert!(player == walker)
+        else if !regretVectorDefined t roots then "panic"             -- expect("valid edge to follow")
+        else if sortNat (outgoing t h0) != edges.map (·.1) then "bad-op edges"
+        else
+          let rv := regretVector t st.σ lo hi roots
+          let tabs := t.mapPayoff ratAbs
+          let floor := pow2 (-40)
+          let rows : List Row := edges.map fun (e, k) =>
+            let r := ((rv.find? (·.1 == e)).map (·.2)).getD 0
+            let tb := min (max (Spec.regret t st.σ roots e) lo) hi
+            -- Σ|terms| of the estimator
+            let T := (roots.map fun h => Spec.actionValue tabs st.σ h e + Spec.nodeValue tabs st.σ h).sum
+            let T := if T < floor then floor else T
+            { edge := e, model := r, textbook := tb, scale := k, scaleOk := decide (ratAbs (k - T) * 1000000 ≤ T) }
+          let scaleOk := rows.all (·.scaleOk)
+          let tbEq := rows.all fun r => r.model == r.textbook
+          let head := (if scaleOk then "scale-ok" else "scale-bad") ++ " " ++ (if tbEq then "textbook-eq" else "textbook-ne")
+          joinSp (head :: rows.map fun r => s!"{r.edge} {showRat (r.model / r.scale)}")
+    | _, _ => "bad-op"
+  | _ => "bad-op"
+
+partial def loop (h out : IO.FS.Stream) (st : Option State) : IO Unit := do
+  let line ← h.getLine
+  if line.isEmpty then
+    out.flush
+    return ()
+  let l := if line.back == '\n' then (line.dropEnd 1).toString else line
+  match words l with
+  | "tree" :: ws =>
+    let (st', ans) := handleTree ws
+    out.putStrLn ans
+    loop h out st'
+  | "regret" :: ws =>
+    match st with
+    | some s => out.putStrLn (handleRegret s ws)
+    | none => out.putStrLn "bad-op no-tree"
+    loop h out st
+  | _ =>
+    out.putStrLn "bad-op"
+    loop h out st
+
+end RP.Driver.C08
+
+def main : IO Unit := do
+  let stdin ← IO.getStdin
+  let stdout ← IO.getStdout
+  RP.Driver.C08.loop stdin stdout none
